@@ -236,27 +236,45 @@ func checkC20(c *Ctx) {
 				lines := []string{"movement " + name + " {", "    walk_up", "}", "script Host {", "    applymovement(1, moves(walk_down))", "}"}
 				addRule(fmt.Sprintf("mov%d.%d", rep, v), "nameclash", lines, 1, 3, map[string]interface{}{"name": name, "generated": []string{"Host_Movement_0"}})
 			}
-			// script label equal to a generated sub-label of that script (taken from the real output of the label-free script) or to a text label
-			host := []string{"script Host {", "    first", "    if (flag(A)) {", "        inif", "    }", "    while (var(V) < 3) {", "        inloop", "    }", "    msgbox(\"txt\")", "    lastcmd", "}"}
-			base := Compile(strings.Join(host, "\n")+"\n", Opts{Optimize: rep%2 == 0})
-			gen := []string{"Host"}
-			if base.Err == nil {
-				for _, ln := range ParseAsm(base.Out).Lines {
-					if ln["k"] == "label" {
-						gen = append(gen, ln["name"].(string))
+			// script label equal to a generated sub-label of that script (taken from the real output of the
+			// label-free script) or to a text label (generated or written), in a script statement, in an
+			// inline map script and in an inline script of a map script table
+			body := []string{"    first", "    if (flag(A)) {", "        inif", "    }", "    while (var(V) < 3) {", "        inloop", "    }", "    msgbox(\"txt\")", "    lastcmd"}
+			hosts := []struct {
+				pre, post []string
+				name      string
+			}{
+				{[]string{"script Host {"}, []string{"}"}, "Host"},
+				{[]string{"mapscripts M {", "MAP_SCRIPT_ON_LOAD {"}, []string{"}", "}"}, "M_MAP_SCRIPT_ON_LOAD"},
+				{[]string{"mapscripts M {", "MAP_SCRIPT_ON_RESUME: Elsewhere", "MAP_SCRIPT_ON_FRAME_TABLE [", "VAR_T, 0: Other", "VAR_T, 1 {"}, []string{"}", "]", "}"}, "M_MAP_SCRIPT_ON_FRAME_TABLE_1"},
+			}
+			for hi, h := range hosts {
+				if c.Quick() && (hi+rep)%3 != 0 && hi != 0 {
+					continue
+				}
+				host := append(append(append([]string{}, h.pre...), body...), h.post...)
+				host = append(host, "text UserText {", "    \"u\"", "}")
+				base := Compile(strings.Join(host, "\n")+"\n", Opts{Optimize: rep%2 == 0})
+				gen := []string{h.name, "UserText"}
+				if base.Err == nil {
+					for _, ln := range ParseAsm(base.Out).Lines {
+						if ln["k"] == "label" && strings.HasPrefix(ln["name"].(string), h.name) {
+							gen = append(gen, ln["name"].(string))
+						}
 					}
 				}
-			}
-			cands := append(append([]string{}, gen...), "Host_99", "Fine", "Host_Text_7")
-			for v, name := range cands {
-				for _, at := range []int{2, 4, 7, 10} {
-					if (v+at+rep)%3 != 0 && c.Quick() {
-						continue
+				cands := append(append([]string{}, gen...), h.name+"_99", "Fine", h.name+"_Text_7")
+				np := len(h.pre)
+				for v, name := range cands {
+					for _, at := range []int{np + 1, np + 3, np + 6, np + 9} {
+						if (v+at+rep)%3 != 0 && c.Quick() {
+							continue
+						}
+						lines := append([]string{}, host[:at]...)
+						lines = append(lines, "    "+name+":")
+						lines = append(lines, host[at:]...)
+						addRule(fmt.Sprintf("lab%d.%d.%d.%d", rep, hi, v, at), "nameclash", lines, at+1, at+1, map[string]interface{}{"name": name, "generated": gen})
 					}
-					lines := append([]string{}, host[:at]...)
-					lines = append(lines, "    "+name+":")
-					lines = append(lines, host[at:]...)
-					addRule(fmt.Sprintf("lab%d.%d.%d", rep, v, at), "nameclash", lines, at+1, at+1, map[string]interface{}{"name": name, "generated": gen})
 				}
 			}
 		}
